@@ -93,3 +93,12 @@ Proof. vm_compute. reflexivity. Qed.
 
 Lemma writers_are_read : forallb (fun p : list str * schema => writer_read (fst p) (snd p)) writers_and_readers = true.
 Proof. vm_compute. reflexivity. Qed.
+
+Lemma readers_read_primaries : forallb (fun p : list str * schema => reads_primary (fst p) (snd p)) uses_and_readers = true.
+Proof. vm_compute. reflexivity. Qed.
+
+Lemma readers_read_every_field : forallb (fun p : list str * schema => fields_read dispatch_keys (fst p) (snd p)) uses_and_readers = true.
+Proof. vm_compute. reflexivity. Qed.
+
+Lemma writers_write_every_field : forallb (fun p : list str * schema => fields_written (fst p) (snd p)) writers_and_readers = true.
+Proof. vm_compute. reflexivity. Qed.
